@@ -25,7 +25,7 @@ meta = {
         'tests_with_change': open(os.path.join(d, 'tests_with_change.txt')).read().strip(),
         'demo_with_change_exit': int(demo.get('demo_with', -1)),
         'demo_without_change_exit': int(demo.get('demo_without', -1)),
-        'how': 'tools/confirm_seed.sh: build + make test + demo with the change; git stash; rebuild; demo without the change',
+        'how': 'tools/confirm_seed.sh: build + make test + demo with the change; git apply -R; rebuild; demo without the change',
     },
     'checks_run': 'git -C /repo apply patch.diff; ./check <ID> for all 19 properties; git -C /repo checkout -- .',
     'check_exit_codes': checks,
